@@ -369,11 +369,15 @@ def _check_case_ops(case, name, cls, obj, model, out, fresh, feats):
             compare(name, obj, model, site + "/after", feats, out)
         elif o == "append":
             x = fresh()
-            _mut(out, site, feats, lambda: obj.append(make(name, [x])), lambda: model.append(x))
+            arg_ = make(name, [x])
+            _mut(out, site, feats, lambda: obj.append(arg_), lambda: model.append(x))
+            shadow(arg_, [x])             # the appended / extending object stays what it was, whatever happens to the receiver later
         elif o == "extend":
             xs = [fresh() for _ in range(op[1])]
             feats["k"] = op[1]
-            _mut(out, site, feats, lambda: obj.extend(make(name, xs)), lambda: model.extend(xs))
+            arg_ = make(name, xs)
+            _mut(out, site, feats, lambda: obj.extend(arg_), lambda: model.extend(xs))
+            shadow(arg_, xs)
         elif o == "insert":
             x = fresh()
             _mut(out, site, feats, lambda: obj.insert(IX(op[1]), make(name, [x])), lambda: model.insert(op[1], x))
